@@ -599,6 +599,9 @@ class ExprMixin:
                 sh = rec.get('__shape__')
                 if self.specmode:
                     raise Unsupported(f'spec reads undeclared attribute {name}')
+                if sh is not None:
+                    # the contract's shape does not describe this field: undecided, not an AttributeError
+                    raise Unsupported(f'attribute {name} is not part of the contract shape of {rec.get("__class__")}')
                 raise PyRaise('AttributeError', ln, f'no attribute {name}')
             kind, val, owner = got
             if kind == 'method':
